@@ -58,6 +58,8 @@ structure Inv (input : List Char) (s : PState) : Prop where
   eof : s.cur = .Eof → s.curText = [] ∧ s.src.rest = []
   err : s.cur = .Error → (s.src.prepErr.isSome = true ∨ s.src.lexErr.isSome = true)
   errs : ∀ e ∈ s.errors, ErrOk input e
+  ne : s.cur ≠ .Eof → s.curText ≠ []
+  capOk : s.curText.length + s.src.rest.length + 2 ≤ s.cap
 
 namespace PState
 
@@ -66,17 +68,20 @@ theorem inv_init (input : List Char) : Inv input (PState.init input) := by
   have h1 := Src.eat_append (Src.init input)
   have h2 := Src.eat_eof (Src.init input)
   have h3 := Src.eat_error (Src.init input)
+  have h4 := Src.eat_text_ne_nil (Src.init input)
   cases he : (Src.init input).eat with
   | mk t src =>
-    rw [he] at h1 h2 h3
-    exact ⟨by simpa [builderText, parentsText, Src.init] using h1, by simp [builderText, parentsText],
-           h2, h3, by simp⟩
+    rw [he] at h1 h2 h3 h4
+    refine ⟨by simpa [builderText, parentsText, Src.init] using h1, by simp [builderText, parentsText],
+           h2, h3, by simp, h4, ?_⟩
+    have := congrArg List.length h1
+    simp [Src.init] at this ⊢; omega
 
 theorem inv_flag {input s} (h : Inv input s) (b : Bool) : Inv input { s with flag := b } :=
-  ⟨h.text, h.pos, h.eof, h.err, h.errs⟩
+  ⟨h.text, h.pos, h.eof, h.err, h.errs, h.ne, h.capOk⟩
 
 theorem inv_error {input s} (h : Inv input s) (m : String) : Inv input (s.error m) := by
-  refine ⟨h.text, h.pos, h.eof, h.err, ?_⟩
+  refine ⟨h.text, h.pos, h.eof, h.err, ?_, h.ne, h.capOk⟩
   intro e he
   simp only [PState.error, List.mem_cons] at he
   rcases he with rfl | he
@@ -90,7 +95,7 @@ theorem builderText_pushTok (s : PState) : builderText s.pushTok.b = builderText
 theorem inv_save {input s s1} (h : Inv input s) (hs : s.save = .ok s1) :
     builderText s1.b ++ s1.src.rest = input ∧ s1.curStart = s.curStart ∧ s1.curText = s.curText ∧
     builderText s1.b = builderText s.b ++ s.curText ∧ (∀ e ∈ s1.errors, ErrOk input e) ∧
-    (s.cur = .Eof → s1.src.rest = []) := by
+    (s.cur = .Eof → s1.src.rest = []) ∧ s1.src.rest = s.src.rest ∧ s1.cap = s.cap := by
   have hb := builderText_pushTok s
   unfold PState.save at hs
   split at hs
@@ -100,7 +105,7 @@ theorem inv_save {input s s1} (h : Inv input s) (hs : s.save = .ok s1) :
     rw [hte] at hs
     simp only [Res.ok.injEq] at hs
     subst hs
-    refine ⟨?_, rfl, rfl, hb, ?_, ?_⟩
+    refine ⟨?_, rfl, rfl, hb, ?_, ?_, hrest, rfl⟩
     · show builderText s.pushTok.b ++ src'.rest = input
       rw [hb, hrest]; simpa [List.append_assoc] using h.text
     · intro e he
@@ -111,7 +116,7 @@ theorem inv_save {input s s1} (h : Inv input s) (hs : s.save = .ok s1) :
     · intro hc; rw [hcur] at hc; cases hc
   · simp only [Res.ok.injEq] at hs
     subst hs
-    refine ⟨?_, rfl, rfl, hb, h.errs, ?_⟩
+    refine ⟨?_, rfl, rfl, hb, h.errs, ?_, rfl, rfl⟩
     · show builderText s.pushTok.b ++ s.src.rest = input
       rw [hb]; simpa [List.append_assoc] using h.text
     · intro hc; exact (h.eof hc).2
@@ -126,18 +131,23 @@ theorem save_ok {input s} (h : Inv input s) : ∃ s1, s.save = .ok s1 := by
   · exact ⟨_, rfl⟩
 
 theorem inv_save_lex {input s s1} (h : Inv input s) (hs : s.save = .ok s1) : Inv input s1.lex := by
-  obtain ⟨h1, h2, h3, h4, h5, h6⟩ := inv_save h hs
+  obtain ⟨h1, h2, h3, h4, h5, h6, h7, h8⟩ := inv_save h hs
   unfold PState.lex
   have ha := Src.eat_append s1.src
   have he := Src.eat_eof s1.src
   have hr := Src.eat_error s1.src
+  have hn := Src.eat_text_ne_nil s1.src
   cases hle : s1.src.eat with
   | mk t src =>
-    rw [hle] at ha he hr
-    simp only [] at ha he hr ⊢
-    refine ⟨?_, ?_, he, hr, h5⟩
+    rw [hle] at ha he hr hn
+    simp only [] at ha he hr hn ⊢
+    refine ⟨?_, ?_, he, hr, h5, hn, ?_⟩
     · simp only []; rw [List.append_assoc, ha]; exact h1
     · simp only []; rw [h2, h3, h4, h.pos]; simp
+    · have hl := congrArg List.length ha
+      have hc := h.capOk
+      simp only [List.length_append] at hl
+      simp only []; rw [h8]; rw [h7] at hl; omega
 
 theorem inv_skip {input} (fuel : Nat) {s s'} (h : Inv input s) (hs : PState.skip fuel s = .ok s') :
     Inv input s' := by
@@ -160,7 +170,7 @@ theorem inv_eat {input s s'} (h : Inv input s) (hs : s.eat = .ok s') : Inv input
 theorem inv_startNode {input s} (h : Inv input s) (k : SyntaxKind) : Inv input (s.startNode k) := by
   have hb : builderText (s.startNode k).b = builderText s.b := by
     simp [PState.startNode, builderText, parentsText]
-  exact ⟨by rw [hb]; exact h.text, by rw [hb]; exact h.pos, h.eof, h.err, h.errs⟩
+  exact ⟨by rw [hb]; exact h.text, by rw [hb]; exact h.pos, h.eof, h.err, h.errs, h.ne, h.capOk⟩
 
 theorem inv_finishNode {input s s'} (h : Inv input s) (hs : s.finishNode = .ok s') : Inv input s' := by
   unfold PState.finishNode at hs
@@ -170,7 +180,7 @@ theorem inv_finishNode {input s s'} (h : Inv input s) (hs : s.finishNode = .ok s
     simp only [Res.ok.injEq] at hs; subst hs
     have hb : builderText { cur := Tree.node k s.b.cur.reverse :: sibs, parents := ps } = builderText s.b := by
       simp [builderText, hp, parentsText, revText, List.append_assoc]
-    exact ⟨by simp only []; rw [hb]; exact h.text, by simp only []; rw [hb]; exact h.pos, h.eof, h.err, h.errs⟩
+    exact ⟨by simp only []; rw [hb]; exact h.text, by simp only []; rw [hb]; exact h.pos, h.eof, h.err, h.errs, h.ne, h.capOk⟩
 
 theorem inv_startNodeAt {input s s'} (h : Inv input s) (cp : Nat × Nat) (k : SyntaxKind)
     (hs : s.startNodeAt cp k = .ok s') : Inv input s' := by
@@ -184,7 +194,7 @@ theorem inv_startNodeAt {input s s'} (h : Inv input s) (cp : Nat × Nat) (k : Sy
                               parents := (k, s.b.cur.drop (s.b.cur.length - cp.2)) :: s.b.parents }
           = builderText s.b := by
         simp [builderText, parentsText, List.append_assoc, revText_take_drop]
-      exact ⟨by simp only []; rw [hb]; exact h.text, by simp only []; rw [hb]; exact h.pos, h.eof, h.err, h.errs⟩
+      exact ⟨by simp only []; rw [hb]; exact h.text, by simp only []; rw [hb]; exact h.pos, h.eof, h.err, h.errs, h.ne, h.capOk⟩
 
 end PState
 
@@ -202,10 +212,10 @@ theorem inv_exec (defs : Defs) (recover : List TokenKind) (input : List Char) :
     | finishNode => simp only [exec] at h; exact PState.inv_finishNode hi h
     | pushCp =>
       simp only [exec, Res.ok.injEq] at h; subst h
-      exact ⟨hi.text, hi.pos, hi.eof, hi.err, hi.errs⟩
+      exact ⟨hi.text, hi.pos, hi.eof, hi.err, hi.errs, hi.ne, hi.capOk⟩
     | popCp =>
       simp only [exec, Res.ok.injEq] at h; subst h
-      exact ⟨hi.text, hi.pos, hi.eof, hi.err, hi.errs⟩
+      exact ⟨hi.text, hi.pos, hi.eof, hi.err, hi.errs, hi.ne, hi.capOk⟩
     | startNodeAtCp k =>
       simp only [exec] at h
       split at h
@@ -279,13 +289,13 @@ theorem inv_exec (defs : Defs) (recover : List TokenKind) (input : List Char) :
     | call f => simp only [exec] at h; exact ih _ s s' hi h
     | pushLocal =>
       simp only [exec, Res.ok.injEq] at h; subst h
-      exact ⟨hi.text, hi.pos, hi.eof, hi.err, hi.errs⟩
+      exact ⟨hi.text, hi.pos, hi.eof, hi.err, hi.errs, hi.ne, hi.capOk⟩
     | popLocal =>
       simp only [exec, Res.ok.injEq] at h; subst h
-      exact ⟨hi.text, hi.pos, hi.eof, hi.err, hi.errs⟩
+      exact ⟨hi.text, hi.pos, hi.eof, hi.err, hi.errs, hi.ne, hi.capOk⟩
     | setLocal =>
       simp only [exec, Res.ok.injEq] at h; subst h
-      exact ⟨hi.text, hi.pos, hi.eof, hi.err, hi.errs⟩
+      exact ⟨hi.text, hi.pos, hi.eof, hi.err, hi.errs, hi.ne, hi.capOk⟩
     | ifLocal t e =>
       simp only [exec] at h
       split at h
